@@ -137,6 +137,12 @@ var (
 	c05TLayB = []c05Clause{c05Cl(c05C(3), false), c05Cl(c05C(0), false)}
 	c05TLayC = []c05Clause{c05Def(false), c05Cl(c05C(2), false)}
 	c05TLayD = []c05Clause{c05Cl(c05C(0), false), c05Cl(c05C(1), false), c05Cl(c05C(2), false), c05Cl(c05C(3), false)}
+	// 4, 5: time.Duration, time.Month (compiled types with a String method); 6: fmt.Stringer; 7: interface{}
+	// an interface case BEFORE concrete cases it also matches (the first matching clause wins)
+	c05TLayE = []c05Clause{c05Cl(c05C(6), false), c05Cl(c05C(4, 0), false), c05Cl(c05C(5), false), c05Def(false)}
+	c05TLayF = []c05Clause{c05Cl(c05C(0), false), c05Cl(c05C(6), false), c05Cl(c05C(5), false), c05Cl(c05C(1), false)}
+	c05TLayG = []c05Clause{c05Cl(c05C(2), false), c05Cl(c05C(7), false), c05Cl(c05C(0), false), c05Cl(c05C(4), false)}
+	c05TLayH = []c05Clause{c05Cl(c05C(4), false), c05Cl(c05C(5, 1), false), c05Cl(c05C(6), false), c05Cl(c05C(3), false)}
 )
 
 func c05T(k, f, c string, n int) c05Tpl {
@@ -185,6 +191,8 @@ func c05AllTemplates(withMap2 bool) []c05Tpl {
 		c05Sw("sw.bool.a", "sw", "bool", "", c05LayBool), c05Sw("sw.bool.b", "sw", "bool", "", c05LayBool2),
 		c05Sw("tsw.bind.x.a", "tsw", "bind", "x", c05TLayA), c05Sw("tsw.bind.y.b", "tsw", "bind", "y", c05TLayB), c05Sw("tsw.nobind.x.c", "tsw", "nobind", "x", c05TLayC),
 		c05Sw("tsw.bind.y.d", "tsw", "bind", "y", c05TLayD), c05Sw("tsw.nobind.y.a", "tsw", "nobind", "y", c05TLayA),
+		c05Sw("tsw.bind.x.e", "tsw", "bind", "x", c05TLayE), c05Sw("tsw.nobind.y.f", "tsw", "nobind", "y", c05TLayF),
+		c05Sw("tsw.bind.y.g", "tsw", "bind", "y", c05TLayG), c05Sw("tsw.nobind.x.h", "tsw", "nobind", "x", c05TLayH),
 	}
 	for _, f := range []string{"d", "rd1", "rd0", "r1", "sd1", "sd0", "sx1", "sx0", "rr", "rc"} {
 		ts = append(ts, c05T("sel", f, "", 0))
@@ -550,7 +558,7 @@ func runC05(c *core.Ctx) error {
 	}
 	c.Extra["gate_cover_features"] = len(seen)
 	c.Extra["gate_cover_programs"] = len(cover)
-	opts := ProgOpts{GateFraction: 1, Sig: c05Sig, Prelude: c05Prelude, Reuse: 60}
+	opts := ProgOpts{GateFraction: 1, Sig: c05Sig, Prelude: c05Prelude, GatePrelude: c05GatePrelude, Reuse: 60}
 	t1 := time.Now()
 	if err := c05RunProgCases(c, cover, opts); err != nil {
 		return err
@@ -586,7 +594,7 @@ func replayC05(c *core.Ctx, raw json.RawMessage) error {
 		return err
 	}
 	pc := c05Render(&wr.Rec, wr.Cell, nil)
-	return c05RunProgCases(c, []*ProgCase{pc}, ProgOpts{GateFraction: 1, Sig: c05Sig, Prelude: c05Prelude})
+	return c05RunProgCases(c, []*ProgCase{pc}, ProgOpts{GateFraction: 1, Sig: c05Sig, Prelude: c05Prelude, GatePrelude: c05GatePrelude})
 }
 
 func selfTestC05(c *core.Ctx) error {
